@@ -303,6 +303,19 @@ func (uv *UtxoVM) UpdateUtxoTotal(delta *big.Int, batch kvdb.Batch, inc bool) {
 	batch.Put(append([]byte(pb.MetaTablePrefix), []byte(UTXOTotalKey)...), uv.utxoTotal.Bytes())
 }
 
+// ReloadTotal re-reads the total supply from the meta table: the in-memory total is advanced while a batch
+// is being staged, so after an operation that failed before its batch was written it has to be taken back
+func (uv *UtxoVM) ReloadTotal() {
+	total := big.NewInt(0)
+	if totalBytes, err := uv.metaHandle.MetaTable.Get([]byte(UTXOTotalKey)); err == nil {
+		total.SetBytes(totalBytes)
+	} else if def.NormalizedKVError(err) != def.ErrKVNotFound {
+		uv.log.Warn("failed to reload utxo total", "err", err)
+		return
+	}
+	uv.utxoTotal = total
+}
+
 // parseUtxoKeys extract (txid, offset) from key of utxo item
 func (uv *UtxoVM) parseUtxoKeys(uKey string) ([]byte, int, error) {
 	keyTuple := strings.Split(uKey[1:], "_") // [1:] 是为了剔除表名字前缀
